@@ -31,19 +31,20 @@ type RuleInfo struct {
 }
 
 type Ctx struct {
-	Prop      string
-	Tier      string
-	W         *World
-	Obs       []Obligation
-	Rules     []*RuleInfo
-	ruleByID  map[string]*RuleInfo
-	Undecided []string
-	Notes     []string
-	Funcs     map[string]bool // functions analysed
-	CallSites int
-	Extra     map[string]interface{}
-	ovFiles   map[string]string
-	start     time.Time
+	Prop          string
+	Tier          string
+	W             *World
+	Obs           []Obligation
+	Rules         []*RuleInfo
+	ruleByID      map[string]*RuleInfo
+	Undecided     []string
+	minimaChecked bool
+	Notes         []string
+	Funcs         map[string]bool // functions analysed
+	CallSites     int
+	Extra         map[string]interface{}
+	ovFiles       map[string]string
+	start         time.Time
 }
 
 func newCtx(prop, tier string, w *World) *Ctx {
@@ -152,13 +153,12 @@ type propMeta struct {
 	Trusted     []string
 }
 
-// finish prints the summary, writes evidence (+ violations file) and returns the exit code.
-func (c *Ctx) finish(meta propMeta, verifDir string, seed int, jsonOut bool, writeEvidence bool) int {
-	known, kerr := readKnown(filepath.Join(verifDir, "known_findings.txt"))
-	if kerr != nil {
-		c.undecided("known_findings", kerr.Error())
+// checkMinima: a rule that matched fewer instances than were confirmed by hand (and did not fail) may have lost its anchor.
+func (c *Ctx) checkMinima() {
+	if c.minimaChecked {
+		return
 	}
-	// instance-count minimums
+	c.minimaChecked = true
 	failedRule := map[string]bool{}
 	for _, o := range c.Obs {
 		if !o.OK {
@@ -170,6 +170,15 @@ func (c *Ctx) finish(meta propMeta, verifDir string, seed int, jsonOut bool, wri
 			c.undecided(r.ID, fmt.Sprintf("matched %d instances, fewer than the %d confirmed by hand: the rule may have lost its anchor", r.Count, r.Min))
 		}
 	}
+}
+
+// finish prints the summary, writes evidence (+ violations file) and returns the exit code.
+func (c *Ctx) finish(meta propMeta, verifDir string, seed int, jsonOut bool, writeEvidence bool) int {
+	known, kerr := readKnown(filepath.Join(verifDir, "known_findings.txt"))
+	if kerr != nil {
+		c.undecided("known_findings", kerr.Error())
+	}
+	c.checkMinima()
 	sort.SliceStable(c.Obs, func(i, j int) bool {
 		if c.Obs[i].Rule != c.Obs[j].Rule {
 			return c.Obs[i].Rule < c.Obs[j].Rule
